@@ -629,6 +629,145 @@ theorem C08_ba_assign (fb M : Nat) (c : Cur) (widths : List Nat) (vals : Nat →
   · rw [C08_ba_get fb _ c widths k hb h0 h7 (hord k hk).1 hfield hsmall (hw k)]; exact core.2.2 k hk
   · have := sumK_window_le widths k (hord k hk).1; omega
 
+/-! ### copy, swap and runs through bit-aligned references -/
+
+private theorem bitsAt_lt (M lo num : Nat) : bitsAt M lo num < 2 ^ num := by
+  unfold bitsAt; exact Nat.mod_lt _ (Nat.two_pow_pos num)
+
+private theorem ba_get' (fb M : Nat) (c : Cur) (widths : List Nat) (k : Nat) (h : RefOK fb c widths) (hk : k < widths.length) :
+    baGet fb M c widths k = bitsAt M (c.pos.toNat + sumK widths k) (width widths k) :=
+  C08_ba_get fb M c widths k h.byte h.off0 h.off7 hk h.field h.small (h.w25 k)
+
+private theorem ba_set' (fb M : Nat) (c : Cur) (widths : List Nat) (k v : Nat) (h : RefOK fb c widths) (hk : k < widths.length)
+    (hv : v < 2 ^ width widths k) :
+    WroteExactly M (baSet fb M c widths k v) (c.pos.toNat + sumK widths k) (width widths k) v :=
+  C08_ba_set_wrote fb M c widths k v h.byte h.off0 h.off7 hk h.field h.small (h.w25 k) hv
+
+/-- reading the source while writing the destination: as long as the two pixels do not overlap, `refA = refB`
+    is the assignment of B's (initial) channel values -/
+private theorem copy_eq_assign (fb : Nat) (a b : Cur) (widths : List Nat) (vals : Nat → Nat)
+    (ha : RefOK fb a widths) (hb : RefOK fb b widths)
+    (hdis : a.pos.toNat + bitSize widths ≤ b.pos.toNat ∨ b.pos.toNat + bitSize widths ≤ a.pos.toNat) :
+    ∀ (order : List Nat) (M : Nat), (∀ k ∈ order, k < widths.length) → (∀ k, k < widths.length → baGet fb M b widths k = vals k) →
+      order.foldl (fun M k => baSet fb M a widths k (baGet fb M b widths k)) M
+        = order.foldl (fun M k => baSet fb M a widths k (vals k)) M := by
+  intro order
+  induction order with
+  | nil => intros; rfl
+  | cons k ks ih =>
+    intro M hord hinv
+    simp only [List.foldl_cons]
+    have hk := hord k (List.mem_cons_self ..)
+    rw [hinv k hk]
+    apply ih _ (fun k' hk' => hord k' (List.mem_cons_of_mem _ hk'))
+    intro k' hk'
+    have hv : vals k < 2 ^ width widths k := by rw [← hinv k hk, ba_get' fb M b widths k hb hk]; exact bitsAt_lt _ _ _
+    rw [ba_get' fb _ b widths k' hb hk', ← hinv k' hk', ba_get' fb M b widths k' hb hk']
+    have w1 := sumK_window_le widths k hk
+    have w2 := sumK_window_le widths k' hk'
+    exact C08_wrote_frame_slice _ _ _ _ _ _ _ (ba_set' fb M a widths k (vals k) ha hk hv) (by omega)
+
+/-- `refA = refB` (two non-overlapping bit-aligned pixels of one type, e.g. neighbours): every channel of A
+    holds B's value, and nothing outside pixel A changes -/
+theorem C08_ba_copy (fb M : Nat) (a b : Cur) (widths : List Nat) (order : List Nat)
+    (ha : RefOK fb a widths) (hb : RefOK fb b widths)
+    (hdis : a.pos.toNat + bitSize widths ≤ b.pos.toNat ∨ b.pos.toNat + bitSize widths ≤ a.pos.toNat)
+    (hord : ∀ k ∈ order, k < widths.length) :
+    (∀ k ∈ order, baGet fb (baCopy fb M a b widths order) a widths k = baGet fb M b widths k)
+    ∧ (∀ i, (i < a.pos.toNat ∨ a.pos.toNat + bitSize widths ≤ i) → (baCopy fb M a b widths order).testBit i = M.testBit i) := by
+  have e : baCopy fb M a b widths order = baAssign fb M a widths (fun k => baGet fb M b widths k) order := by
+    unfold baCopy baAssign
+    exact copy_eq_assign fb a b widths _ ha hb hdis order M hord (fun _ _ => rfl)
+  have hv : ∀ k ∈ order, k < widths.length ∧ baGet fb M b widths k < 2 ^ width widths k := fun k hk =>
+    ⟨hord k hk, by rw [ba_get' fb M b widths k hb (hord k hk)]; exact bitsAt_lt _ _ _⟩
+  have := C08_ba_assign fb M a widths (fun k => baGet fb M b widths k) order ha.byte ha.off0 ha.off7 ha.field ha.small ha.w25 hv
+  rw [e]; exact ⟨this.1, this.2.2⟩
+
+/-- `swap(refA, refB)` (`swap_proxy`) of two non-overlapping bit-aligned pixels: the channel values are
+    exchanged and nothing outside the two pixels changes -/
+theorem C08_swap (fb M : Nat) (a b : Cur) (widths : List Nat) (order : List Nat)
+    (ha : RefOK fb a widths) (hb : RefOK fb b widths)
+    (hdis : a.pos.toNat + bitSize widths ≤ b.pos.toNat ∨ b.pos.toNat + bitSize widths ≤ a.pos.toNat)
+    (hord : ∀ k ∈ order, k < widths.length) :
+    (∀ k ∈ order, baGet fb (baSwap fb M a b widths order) a widths k = baGet fb M b widths k
+                 ∧ baGet fb (baSwap fb M a b widths order) b widths k = baGet fb M a widths k)
+    ∧ (∀ i, (i < a.pos.toNat ∨ a.pos.toNat + bitSize widths ≤ i) → (i < b.pos.toNat ∨ b.pos.toNat + bitSize widths ≤ i) →
+          (baSwap fb M a b widths order).testBit i = M.testBit i) := by
+  obtain ⟨c1, c2⟩ := C08_ba_copy fb M a b widths order ha hb hdis hord
+  have hva : ∀ k ∈ order, k < widths.length ∧ baGet fb M a widths k < 2 ^ width widths k := fun k hk =>
+    ⟨hord k hk, by rw [ba_get' fb M a widths k ha (hord k hk)]; exact bitsAt_lt _ _ _⟩
+  have hsw : baSwap fb M a b widths order
+      = baAssign fb (baCopy fb M a b widths order) b widths (fun k => baGet fb M a widths k) order := by
+    unfold baSwap baCopy; rfl
+  obtain ⟨s1, _, s3⟩ := C08_ba_assign fb (baCopy fb M a b widths order) b widths (fun k => baGet fb M a widths k) order
+    hb.byte hb.off0 hb.off7 hb.field hb.small hb.w25 hva
+  rw [hsw]
+  refine ⟨fun k hk => ⟨?_, s1 k hk⟩, fun i hia hib => by rw [s3 i hib, c2 i hia]⟩
+  -- A's channel after the second assignment = A's channel after the copy (B's windows are disjoint from A's)
+  have hk' := hord k hk
+  rw [ba_get' fb _ a widths k ha hk', ← c1 k hk, ba_get' fb _ a widths k ha hk']
+  apply Nat.eq_of_testBit_eq; intro i
+  rw [tb_bitsAt, tb_bitsAt]
+  by_cases hi : i < width widths k
+  · have w1 := sumK_window_le widths k hk'
+    rw [s3 _ (by omega)]
+  · simp [hi]
+
+/-- `std::fill` / `std::copy` from values through a bit-aligned iterator: pixel `j` of the run holds `ps[j]`,
+    nothing outside `[pos, pos + count * bit_size)` changes -/
+theorem C08_write_run (fb : Nat) (widths : List Nat) (order : List Nat) (hfield : bitSize widths + 7 ≤ 8 * fb)
+    (hsmall : bitSize widths < 2147483640) (hw : ∀ k, width widths k ≤ 25) (hord : ∀ k ∈ order, k < widths.length) :
+    ∀ (ps : List (Nat → Nat)) (M : Nat) (c : Cur), 0 ≤ c.byte → 0 ≤ c.off → c.off < 8 →
+      (∀ p ∈ ps, ∀ k ∈ order, p k < 2 ^ width widths k) →
+      (∀ j (hj : j < ps.length), ∀ k ∈ order,
+          bitsAt (baWriteRun fb M c widths order ps) (c.pos.toNat + j * bitSize widths + sumK widths k) (width widths k) = ps[j] k)
+      ∧ (∀ i, (i < c.pos.toNat ∨ c.pos.toNat + ps.length * bitSize widths ≤ i) →
+          (baWriteRun fb M c widths order ps).testBit i = M.testBit i) := by
+  intro ps
+  induction ps with
+  | nil => intro M c _ _ _ _; exact ⟨fun j hj => by simp at hj, fun _ _ => rfl⟩
+  | cons p ps ih =>
+    intro M c hb h0 h7 hvals
+    have hp : ∀ k ∈ order, k < widths.length ∧ p k < 2 ^ width widths k := fun k hk => ⟨hord k hk, hvals p (List.mem_cons_self ..) k hk⟩
+    obtain ⟨a1, _, a3⟩ := C08_ba_assign fb M c widths p order hb h0 h7 hfield hsmall hw hp
+    obtain ⟨ipos, _⟩ := C08_iter_inc_dec (bitSize widths) c h0 h7 (by omega)
+    have hinc : itInc (bitSize widths) c = c.adv (bitSize widths) := by
+      unfold itInc Cur.inc Cur.adv
+      rw [C08_inc_eq_adv c.byte c.off (bitSize widths) h0 (by omega) (by omega)]
+    obtain ⟨p1, l1, u1⟩ := C08_adv_pos c.byte c.off (bitSize widths) (by omega) (by omega)
+    have hb' : 0 ≤ (itInc (bitSize widths) c).byte := by rw [hinc]; unfold Cur.adv; simp only []; omega
+    have h0' : 0 ≤ (itInc (bitSize widths) c).off := by rw [hinc]; unfold Cur.adv; simp only []; exact l1
+    have h7' : (itInc (bitSize widths) c).off < 8 := by rw [hinc]; unfold Cur.adv; simp only []; exact u1
+    have hpos' : (itInc (bitSize widths) c).pos.toNat = c.pos.toNat + bitSize widths := by
+      have : 0 ≤ c.pos := by unfold Cur.pos; omega
+      omega
+    obtain ⟨r1, r2⟩ := ih (baAssign fb M c widths p order) (itInc (bitSize widths) c) hb' h0' h7'
+      (fun q hq => hvals q (List.mem_cons_of_mem _ hq))
+    show _ ∧ _
+    simp only [baWriteRun, List.length_cons]
+    rw [hpos'] at r1 r2
+    refine ⟨fun j hj k hk => ?_, fun i hi => ?_⟩
+    · cases j with
+      | zero =>
+        -- the first pixel: written by the assignment, not disturbed by the rest of the run
+        have hk' := hord k hk
+        have w1 := sumK_window_le widths k hk'
+        simp only [Nat.zero_mul, Nat.add_zero, List.getElem_cons_zero]
+        rw [← a1 k hk, C08_ba_get fb _ c widths k hb h0 h7 hk' hfield hsmall (hw k)]
+        apply Nat.eq_of_testBit_eq; intro i
+        rw [tb_bitsAt, tb_bitsAt]
+        by_cases hi : i < width widths k
+        · rw [r2 _ (by omega)]
+        · simp [hi]
+      | succ j =>
+        have := r1 j (by simpa using hj) k hk
+        simp only [List.getElem_cons_succ]
+        have e : c.pos.toNat + (j + 1) * bitSize widths = c.pos.toNat + bitSize widths + j * bitSize widths := by
+          rw [Nat.add_mul]; omega
+        rw [e]; exact this
+    · have e : (ps.length + 1) * bitSize widths = bitSize widths + ps.length * bitSize widths := by rw [Nat.add_mul]; omega
+      rw [r2 i (by omega), a3 i (by omega)]
+
 /-! ### proxy arithmetic and the value type -/
 
 private theorem emod_chain (x : Int) (a b : Nat) (h : a ≤ b) : x % (2:Int) ^ b % (2:Int) ^ a = x % (2:Int) ^ a :=
@@ -703,5 +842,13 @@ example : bit_advance 10 5 (-13) = (9, 0) ∧ bit_advance 9 0 13 = (10, 5) := by
 example : setArg 3 (arithResult 3 .dec 0 0) = 7 ∧ setArg 3 (arithResult 3 .mul 6 3) = 2 := by decide
 -- bit-aligned rgb 2-3-2 pixel (uint16_t field) at byte 1 offset 6: channel 1 sits at bit 16
 example : baChan ⟨1, 6⟩ [2, 3, 2] 1 = ⟨2, 0⟩ ∧ baSet 2 0 ⟨1, 6⟩ [2, 3, 2] 1 7 = 0x70000 := by decide
+-- two adjacent rgb 2-2-2 pixels (uint16_t field) at bits 6 and 12 of a buffer: the hypotheses of C08_swap hold, and it swaps
+example : RefOK 2 ⟨0, 6⟩ [2, 2, 2] ∧ RefOK 2 ⟨1, 4⟩ [2, 2, 2]
+    ∧ ((⟨0, 6⟩ : Cur).pos.toNat + bitSize [2, 2, 2] ≤ (⟨1, 4⟩ : Cur).pos.toNat) :=
+  ⟨⟨by decide, by decide, by decide, by decide, by decide, fun k => by
+      unfold width; rcases k with _ | _ | _ | _ | k <;> simp [List.getD]⟩,
+   ⟨by decide, by decide, by decide, by decide, by decide, fun k => by
+      unfold width; rcases k with _ | _ | _ | _ | k <;> simp [List.getD]⟩, by decide⟩
+example : baSwap 2 0x123E41 ⟨0, 6⟩ ⟨1, 4⟩ [2, 2, 2] [0, 1, 2] = 0x1398C1 := by decide
 
 end GilVerif.Props.C08
